@@ -22,6 +22,13 @@ def execCmdsStates : Runner → List Cmd → List Runner
     let r' := execCmd r c
     if r'.outcome.isSome then [r, r'] else r :: execCmdsStates r' cs
 
+/-- `_process_tick`: `if any(isinstance(c, (CommandHalt, CommandFailWorkflow)) for c in commands): await
+self.cleanup_tasks()` — a halting or failing tick stops the workers *before* its commands are processed -/
+def Cmd.stopsWorkersFirst : Cmd → Bool
+  | .halt _ => true
+  | .failWorkflow _ _ => true
+  | _ => false
+
 /-- every state one action passes through (its result last) -/
 def Runner.microStates (cfg : Cfg) (pol : Policy) (r : Runner) (a : Act) : List Runner :=
   if r.outcome.isSome then [r] else
@@ -33,7 +40,10 @@ def Runner.microStates (cfg : Cfg) (pol : Policy) (r : Runner) (a : Act) : List 
       let r1 := { r with buf := rest, idlePending := if t = Tick.idleCheck then false else r.idlePending }
       let res := reduce cfg pol t r1.st r1.now
       if res.2.contains .crash then [r1.finish .crashed]
-      else execCmdsStates { r1 with st := res.1, log := r1.log ++ [(t, r1.now)] } res.2
+      else
+        let r2 := { r1 with st := res.1, log := r1.log ++ [(t, r1.now)] }
+        if res.2.any Cmd.stopsWorkersFirst then execCmdsStates { r2 with running := [] } res.2
+        else execCmdsStates r2 res.2
   | a => [r.step cfg pol a]
 
 /-- every state the start of a run passes through: `__init__`, the timeout timer, then the
